@@ -6,8 +6,8 @@ from __future__ import annotations
 from vcheck.props import simcheck
 from vcheck.sim import monitors, programs as P
 
-ONE = ["S", "Sm", "R", "W", "C", "Cs", "K", "I", "N", "H", "P", "M", "F", "Pw", "Pe", "Me"]
-TWO = [("Pe", "S"), ("S", "W"), ("Sm", "S"), ("W", "S"), ("C", "S"), ("H", "S"), ("P", "W"), ("N", "S"), ("I", "W")]
+ONE = ["S", "Sm", "R", "W", "C", "Cs", "K", "I", "N", "H", "P", "M", "F", "Pw", "Pe", "Me", "Fi", "Fs"]
+TWO = [("Fi", "S"), ("Fs", "W"), ("Pe", "S"), ("S", "W"), ("Sm", "S"), ("W", "S"), ("C", "S"), ("H", "S"), ("P", "W"), ("N", "S"), ("I", "W")]
 
 
 def space(tier):
